@@ -81,6 +81,9 @@ struct Msg {
     topic: String,
     delivered: u32,
     delivered_topic_ok: bool,
+    /// the stored copy (full topic, no alias) exceeded the peer's Maximum Packet Size at a resume and was dropped with its
+    /// identifier released, as C06/C14 prescribe: such a message cannot be retransmitted at all
+    dropped_oversize: bool,
 }
 
 pub struct Pair {
@@ -142,9 +145,24 @@ impl Pair {
             let auto = if client { self.cfg.c_auto } else { self.cfg.s_auto };
             let cfg = self.cfg;
             let has_session = self.server_has_session;
+            let limited = cfg.c_mps.is_some() || cfg.s_mps.is_some();
             let sd = self.side(client);
+            let stored_before = if limited { sd.w.c.stored() } else { vec![] };
             sd.w.exec(&op);
             let st = sd.w.steps.last().unwrap().clone();
+            // oversize stored packets dropped at the resume (the step that completes the handshake)
+            let mut dropped: Vec<Vec<u8>> = Vec::new();
+            if limited && (st.recvs().iter().any(|a| matches!(a, AP::Connack { .. })) || st.sends().iter().any(|a| matches!(a, AP::Connack { .. }))) {
+                for id in st.released() {
+                    for sp in &stored_before {
+                        if let AP::Publish { pid: Some(x), payload, .. } = sp {
+                            if *x == id {
+                                dropped.push(payload.clone());
+                            }
+                        }
+                    }
+                }
+            }
             if let Some(p) = &st.panic {
                 return Err(fail("C01.peer_error", format!("panic/{}", if client { "client" } else { "server" }), format!("the {} panicked: {p}", if client { "client" } else { "server" })));
             }
@@ -215,6 +233,12 @@ impl Pair {
             }
             for d in deliveries {
                 self.record_delivery(client, &d)?;
+            }
+            for pl in dropped {
+                if let Some(m) = self.ledger.get_mut(&pl) {
+                    m.dropped_oversize = true;
+                    self.classes.push("stored_copy_dropped_as_oversize_on_resume");
+                }
             }
             if self.cfg.defer {
                 let sd = self.side(client);
@@ -413,7 +437,7 @@ impl Pair {
                         if alias != AliasMode::None {
                             self.classes.push("alias_in_use");
                         }
-                        self.ledger.insert(payload.clone(), Msg { from_client: *from_client, qos: *qos, topic: t, delivered: 0, delivered_topic_ok: true });
+                        self.ledger.insert(payload.clone(), Msg { from_client: *from_client, qos: *qos, topic: t, delivered: 0, delivered_topic_ok: true, dropped_oversize: false });
                     } else {
                         return Err(fail("C01.content_mismatch", "unbound_alias_accepted", "an empty-topic publish with an alias the application never bound on this connection was accepted"));
                     }
@@ -475,11 +499,19 @@ impl Pair {
             let _ = pl;
             match m.qos {
                 2 => {
+                    if m.delivered == 0 && m.dropped_oversize {
+                        // known finding D37 (own signature, so that any other loss is still reported)
+                        return Err(fail("C01.q2_not_exactly_once", format!("{v}/lost/stored_copy_oversize"), format!("an accepted QoS2 message ({dir}, topic {:?}) was never notified: its stored copy (full topic, no alias) exceeds the peer's Maximum Packet Size and was dropped at the resume", m.topic)));
+                    }
                     if m.delivered != 1 {
                         return Err(fail("C01.q2_not_exactly_once", format!("{v}/{dir}/{}", if m.delivered == 0 { "lost" } else { "duplicated" }), format!("an accepted QoS2 message ({dir}, topic {:?}) was notified {} times ({} transport losses)", m.topic, m.delivered, self.losses)));
                     }
                 }
                 1 => {
+                    if m.delivered == 0 && m.dropped_oversize {
+                        // known finding D37 (own signature, so that any other loss is still reported)
+                        return Err(fail("C01.q1_lost", format!("{v}/stored_copy_oversize"), format!("an accepted QoS1 message ({dir}, topic {:?}) was never notified: its stored copy (full topic, no alias) exceeds the peer's Maximum Packet Size and was dropped at the resume", m.topic)));
+                    }
                     if m.delivered == 0 {
                         return Err(fail("C01.q1_lost", format!("{v}/{dir}"), format!("an accepted QoS1 message ({dir}, topic {:?}) was never notified ({} transport losses)", m.topic, self.losses)));
                     }
